@@ -314,7 +314,7 @@ impl<'a> Eval<'a> {
                     };
                     f.rec.pushed.push(tag | (f.acc & 0xF));
                 }
-                Op::CallMask { .. } | Op::CallShift { .. } | Op::CallInc { .. } | Op::CallNot { .. } | Op::CallSat { .. } | Op::CallMax { .. } => {
+                Op::CallMask { .. } | Op::CallShift { .. } | Op::CallInc { .. } | Op::CallNot { .. } | Op::CallSat { .. } | Op::CallMax { .. } | Op::UntrackedBelow { .. } => {
                     panic!("lattice op in acyclic reference")
                 }
             }
